@@ -1,5 +1,102 @@
-"""bounded witness search / replay (filled in below)"""
-def search(pid, repo, workdir, tier):
-    return {'found': False, 'by': None, 'note': 'no witness harness for this property yet'}
+"""Bounded witness search and replay.
+
+Not a deciding step.  When a proof obligation fails (or a proof cannot be rebuilt because the code left the shape the contracts are
+attached to), the real crate -- a scratch copy of /repo's working tree, built natively with overflow checks and debug assertions --
+is run over a finite grid of inputs by /verif/witness (public API only) looking for a concrete input on which the property
+statement itself is false.  A hit is a sound alarm (it replays on the real code); no hit proves nothing.
+Bound: see `grid()`, `versions()`, `order_versions()`, `op_ranges()` in witness/src/main.rs (about 2.3k range texts, 200 versions).
+"""
+import os, re, json, shutil, subprocess, time
+
+HERE = os.path.dirname(os.path.abspath(__file__))
+VERIF = os.path.abspath(os.path.join(HERE, '..'))
+
+
+def build(repo, workdir):
+    crate = os.path.join(workdir, 'crate')
+    shutil.rmtree(crate, ignore_errors=True)
+    os.makedirs(crate)
+    for f in ('Cargo.toml', 'Cargo.lock', 'README.md'):
+        if os.path.exists(os.path.join(repo, f)):
+            shutil.copy(os.path.join(repo, f), os.path.join(crate, f))
+    for d in ('src', 'examples', 'benches'):
+        if os.path.isdir(os.path.join(repo, d)):
+            shutil.copytree(os.path.join(repo, d), os.path.join(crate, d))
+    w = os.path.join(workdir, 'w')
+    shutil.rmtree(w, ignore_errors=True)
+    os.makedirs(os.path.join(w, 'src'))
+    shutil.copy(os.path.join(VERIF, 'witness', 'src', 'main.rs'), os.path.join(w, 'src', 'main.rs'))
+    open(os.path.join(w, 'Cargo.toml'), 'w').write('''[package]
+name = "witness"
+version = "0.0.0"
+edition = "2021"
+
+[dependencies]
+nodejs-semver = { path = "../crate" }
+
+[profile.dev]
+opt-level = 1
+overflow-checks = true
+debug-assertions = true
+
+[workspace]
+''')
+    shutil.copy(os.path.join(repo, 'Cargo.lock'), os.path.join(w, 'Cargo.lock'))
+    os.makedirs(os.path.join(w, '.cargo'), exist_ok=True)
+    open(os.path.join(w, '.cargo', 'config.toml'), 'w').write('[net]\noffline = true\n')
+    env = dict(os.environ, CARGO_NET_OFFLINE='true', CARGO_TARGET_DIR=os.path.join(workdir, 'target'))
+    p = subprocess.run(['cargo', 'build', '--offline'], cwd=w, env=env, capture_output=True, text=True, timeout=1200)
+    if p.returncode != 0:
+        # the lock file of the library names dev-dependencies too; let cargo rewrite it offline
+        os.remove(os.path.join(w, 'Cargo.lock'))
+        p = subprocess.run(['cargo', 'build', '--offline'], cwd=w, env=env, capture_output=True, text=True, timeout=1200)
+    return w, env, p
+
+
+def search(pid, repo, workdir, tier, level=None):
+    t0 = time.time()
+    os.makedirs(workdir, exist_ok=True)
+    w, env, p = build(repo, workdir)
+    if p.returncode != 0:
+        return {'found': False, 'by': 'native bounded search', 'error': 'witness crate does not build: ' + p.stderr[-800:]}
+    lvl = level if level is not None else (1 if tier == 'thorough' else 0)
+    exe = os.path.join(workdir, 'target', 'debug', 'witness')
+    try:
+        r = subprocess.run([exe, pid, str(lvl)], capture_output=True, text=True, timeout=1500)
+    except subprocess.TimeoutExpired:
+        return {'found': False, 'by': 'native bounded search', 'error': 'timeout', 'wall_s': round(time.time() - t0, 1)}
+    out = r.stdout
+    m = re.search(r'^WITNESS (\{.*\})\s*$', out, re.M)
+    res = {'by': 'bounded native search over the grid of /verif/witness/src/main.rs, run against a scratch copy of the working tree (overflow checks on)',
+           'bounded': True, 'level': lvl, 'wall_s': round(time.time() - t0, 1), 'cmd': '%s %s %d' % (exe, pid, lvl)}
+    if m:
+        try:
+            j = json.loads(m.group(1))
+        except Exception:
+            j = {'raw': m.group(1)}
+        res.update({'found': True, 'input': j, 'replay_cmd': './check %s --replay <this file>' % pid})
+    elif 'NO-WITNESS' in out:
+        res.update({'found': False})
+    else:
+        res.update({'found': False, 'error': 'witness program ended abnormally (exit %s): %s' % (r.returncode, (r.stdout + r.stderr)[-400:])})
+    return res
+
+
 def replay(path, repo):
-    print('replay not implemented yet'); return 2
+    """re-run the search for the property of the replay file against the current working tree and report whether the recorded input still fails"""
+    j = json.load(open(path))
+    pid = j['property']
+    rec = j.get('failing_input')
+    workdir = os.path.join(VERIF, 'gen', pid, 'replay')
+    res = search(pid, repo, workdir, 'quick', level=(j.get('witness') or {}).get('level', 0))
+    print('replay of %s: obligation %s' % (path, j.get('obligation')))
+    if rec:
+        print('recorded failing input:', json.dumps(rec))
+    else:
+        print('the verifier gave no failing input for this obligation (verifier output is in the file)')
+    if res.get('found'):
+        print('REPLAY-VIOLATION: %s' % json.dumps(res['input']))
+        print('VIOLATION property=%s replay=%s' % (pid, path))
+        return 1
+    print('no failing input found on the current tree by the bounded search (%s)' % (res.get('error') or 'finished'))
+    return 0
